@@ -229,10 +229,17 @@ func RealCompletion(d *Def, c *Case) (int, string) {
 	if err != nil {
 		return -1, "no executable: " + err.Error()
 	}
+	// raw COMP_LINE texts may hold bytes that are not valid UTF-8 (JSON would replace them): they travel as hex
+	rawArgs := []string{}
+	for _, a := range c.RawArgs {
+		rawArgs = append(rawArgs, hex.EncodeToString([]byte(a)))
+	}
 	in, _ := json.Marshal(struct {
-		Def  *Def  `json:"def"`
-		Case *Case `json:"case"`
-	}{d, c})
+		Def     *Def     `json:"def"`
+		Case    *Case    `json:"case"`
+		RawLine string   `json:"rawlinehex"`
+		RawArgs []string `json:"rawargshex"`
+	}{d, c, hex.EncodeToString([]byte(c.RawLine)), rawArgs})
 	cmd := exec.Command(exe, "compchild")
 	cmd.Stdin = bytes.NewReader(in)
 	var out bytes.Buffer
@@ -250,12 +257,22 @@ func RealCompletion(d *Def, c *Case) (int, string) {
 // CompChild - the child side: the definition and the request come on standard input; Parse must not return.
 func CompChild() {
 	var in struct {
-		Def  Def  `json:"def"`
-		Case Case `json:"case"`
+		Def     Def      `json:"def"`
+		Case    Case     `json:"case"`
+		RawLine string   `json:"rawlinehex"`
+		RawArgs []string `json:"rawargshex"`
 	}
 	if err := json.NewDecoder(os.Stdin).Decode(&in); err != nil {
 		fmt.Fprintln(os.Stderr, "compchild:", err)
 		os.Exit(9)
+	}
+	if b, err := hex.DecodeString(in.RawLine); err == nil {
+		in.Case.RawLine = string(b)
+	}
+	in.Case.RawArgs = []string{}
+	for _, a := range in.RawArgs {
+		b, _ := hex.DecodeString(a)
+		in.Case.RawArgs = append(in.Case.RawArgs, string(b))
 	}
 	b := Build(&in.Def.Cfg)
 	args := CompSetup(&in.Def.Cfg, &in.Case)
